@@ -54,6 +54,29 @@ fn main() {
             args[8].parse().unwrap_or(60),
         ),
         Some("replay") if args.len() >= 3 => sup::replay(&args[2]),
+        Some("trace-replay") if args.len() >= 3 => {
+            // print the full event log of a replay file's scenario
+            let txt = std::fs::read_to_string(&args[2]).unwrap_or_default();
+            match serde_json::from_str::<sup::ReplayFile>(&txt) {
+                Ok(r) => {
+                    if let Some(p) = props::by_id(&r.property) {
+                        if let Ok(run) = p.run(&r.scenario) {
+                            for (i, e) in run.log.iter().enumerate() {
+                                println!("{i:6} {}", log::fmt_ev(e));
+                            }
+                            for pn in &run.panics {
+                                println!("PANIC {pn}");
+                            }
+                        }
+                    }
+                    0
+                }
+                Err(e) => {
+                    eprintln!("bad replay file: {e}");
+                    2
+                }
+            }
+        }
         Some("decode") if args.len() >= 3 => {
             // debugging aid: run the repository's decoder on a byte string given as text or hex:...
             let b = if let Some(h) = args[2].strip_prefix("hex:") { krpc::unhex(h) } else { args[2].as_bytes().to_vec() };
